@@ -97,7 +97,17 @@ def rule_r1(chk, p, t):
         elif getter == "getElevation":
             ok = txts == [f"arcsin({prm}[2] / norm({prm}[:3]))"]
         else:
-            ok = txts == ["wrapAngle2Pi(azimuth)"] and any(isinstance(n, ast.Assign) and unparse(n.value) == f"arctan2({prm}[1], -1.0 * {prm}[0])" for n in walk_no_nested(g.node))
+            # path-wise: off the zenith the azimuth is atan2(E, -S) wrapped to [0, 2pi); at the zenith the same with
+            # the velocity components - however the branches are written (if / else, early return, conditional expression)
+            from rsa.terms import NotEvaluable, returned_exprs
+
+            try:
+                got = {unparse(e) for e, _c in returned_exprs(g)}
+            except NotEvaluable as ex:
+                raise Undecided(f"getAzimuth cannot be evaluated path-wise ({ex})", g.node) from None
+            want = {f"wrapAngle2Pi(arctan2({prm}[1], -1.0 * {prm}[0]))", f"wrapAngle2Pi(arctan2({prm}[4], -1.0 * {prm}[3]))"}
+            ok = {canon(ast.parse(x, mode="eval").body) for x in got} == {canon(ast.parse(x, mode="eval").body) for x in want}
+            txts = sorted(got)
         if ok:
             r.ok(g.qualname, f"forward model: {txts}", g.loc())
         else:
